@@ -216,7 +216,8 @@ def main(run: core.Run, only=None):
     if quick:
         cfgs += [dict(c, H=400.0, reference=(i % 8 == 0)) for i, c in enumerate(cfgs) if c["H"] == 100.0 and i % 2 == 0]
         # slim boreholes (grout annulus below 27 mm, i.e. grout cells thinner than 1 mm)
-        cfgs += [dict(c, rb=0.050, pipe=[0.0136, 0.0167], reference=True) for i, c in enumerate(cfgs[:32]) if c["rb"] == 0.12 and i % 4 == 0]
+        cfgs += [{"rb": 0.050, "pipe": [0.0136, 0.0167], "H": h, "k_g": kg, "k_s": 2.0, "rc_g": 3.9e6, "rc_s": 2.3e6, "fluid": ["Water", 0.0], "mdot": md, "reference": True}
+                 for h, kg, md in ((100.0, 1.0, 0.3), (20.0, 2.5, 0.05), (100.0, 0.6, 1.0))]
         cfgs += [{"rb": 0.045, "pipe": [0.0109, 0.0134], "H": 100.0, "k_g": 1.0, "k_s": 2.0, "rc_g": 3.9e6, "rc_s": 2.3e6, "fluid": ["Water", 0.0], "mdot": 0.3, "reference": True}]
     heavy = [c for c in cfgs if c["H"] >= 400.0]
     light = [c for c in cfgs if c["H"] < 400.0]
